@@ -382,8 +382,55 @@ def alias_bytes(rng):
         b = [0x66] + b
     return bytes(b).hex()
 
+def eqsib_item(rng):
+    """Operands P, Q, P' of one ^ | & + node where P and P' are EQUAL for the library (same text, `==`) but not the same
+    structure - a constant typed at another width in a width-erasing position (an immediate shift count is lifted at 32
+    bits, a count coming through cl at 8), or a memory operand / identifier carrying the terminal flag or not (a direct
+    read of a cell vs the same cell narrowed from a wider read) - and Q is a neighbour that an order on expressions
+    may put between them.  Compared by text and library equality (which of P, P' survives is not observable)."""
+    x = rng.choice(REG_RECIPES + FRESH)
+    fl = rng.randrange(3)
+    if fl == 0:
+        sh = rng.choice(['<<', '>>', 'a>>', '<<<', '>>>'])
+        c = rng.choice([1, 3, 4, 8])
+        P, P2 = ['O', sh, [x, r_int(c, 32)]], ['O', sh, [x, r_int(c, 8)]]
+        Qs = [['O', sh, [x, r_int(c + rng.choice([1, 2, -1]), rng.choice([8, 32]))]], ['O', sh, [x, r_int(c + 1, 8)]], ['O', sh, [x, r_int(max(c - 1, 0), 32)]]]
+    elif fl == 1:
+        addr = x if rng.random() < 0.5 else ['O', '+', [x, r_int(rng.choice([4, 8]))]]
+        w = rng.choice([8, 16, 32])
+        P, P2 = ['M', addr, w, None, True], ['M', addr, w, None, False]
+        Qs = [['C', [[['S', rng.choice(REG_RECIPES), 0, 16], 0, 16], [r_int(5, 16), 16, 32]]], ['M', ['O', '+', [x, r_int(12)]], w, None, rng.random() < 0.5],
+              ['M', addr, 32 if w != 32 else 16, None, False]]
+        Qs.append(['M', addr, w, ['D', rng.choice(['ds', 'es']), 16, False, True], False])      # same cell, segment-qualified
+        if w != 32:
+            z = r_int(0, 32 - w)
+            lowP = P2
+            P, P2 = ['C', [[P, 0, w], [z, w, 32]]], ['C', [[P2, 0, w], [z, w, 32]]]
+            Qs[1] = ['C', [[Qs[1], 0, w], [z, w, 32]]]
+            Qs[2] = rng.choice(REG_RECIPES)
+            Qs[3] = ['C', [[Qs[3], 0, w], [z, w, 32]]]
+            Qs += [['C', [[lowP, 0, w], [r_int(5, 32 - w), w, 32]]]] * 2     # same low part, another constant above it
+    else:
+        n = rng.choice(['init_eax', 'q', 'eax'])
+        P, P2 = ['D', n, 32, True, False], ['D', n, 32, False, False]
+        Qs = [['D', n, 32, False, True], ['D', n + 'a', 32, False, False], ['M', ['D', n, 32, True, False], 32, None, False]]
+    op = rng.choice(['^', '|', '&', '|', '&', '+'])
+    args = [P, rng.choice(Qs), P2]
+    if rng.random() < 0.5:
+        args.append(rng.choice(Qs))
+    if rng.random() < 0.3:
+        args.append(leaf(rng))
+    rng.shuffle(args)
+    e = ['O', op, args]
+    return {'kind': 'simp', 'e': e, 'variants': variants(rng, e, 5), 'lax': True}
+
 def workload(seed, n):
     items = workload0(seed, n)
+    for idx, it in enumerate(items):
+        if it['kind'] == 'simp':
+            r2 = random.Random('%d/%d/eqsib' % (seed, idx))
+            if r2.random() < 0.04:
+                items[idx] = eqsib_item(r2)
     # second pass (keyed by seed and position, the main stream of choices is untouched): some lift items take an
     # encoding with aliasing operands instead
     for idx, it in enumerate(items):
